@@ -187,7 +187,7 @@ func c19Infer(c *vk.Ctx, id, ts string, soundness bool) (accepted bool) {
 
 // C19 — type inference is total and sound; type compatibility is symmetric.
 func C19(c *vk.Ctx) {
-	c.Rule("type strings: (a) every type the registry's base columns report, legal and illegal parameterisations (time zones, DateTime64 precisions 0..10, Decimal precisions at every width boundary, FixedString sizes incl. 0 / negative / non-numeric, enum definitions with quoted commas and parentheses, interval kinds, types the library does not know), each under Array / Nullable / LowCardinality / Map / Tuple wrappers to depth 1, a smaller base set to depth 2 (thorough 3); (a2) all histories Infer(A), [refused Infer(X)], Infer(B) on one ColAuto over a 20-type set: whatever is accepted for B must come with a column whose type does not conflict with B; (b) ALL token strings of length <= n (quick 5, thorough 6) over a 25-token alphabet of type names, punctuation, parameters and junk; (c) nesting depth 10000; (d) every single edit (deletion, insertion or replacement by one of ()',= 0a- at every position, every truncation) of the set-(a) types with at most 3 parentheses; (e) ALL character strings of length <= m (quick 5, thorough 6) over the alphabet {' a = 1 , space - ( )} as the parameter list of Enum8 / Enum16 / DateTime / DateTime64 / Decimal / Decimal64 / FixedString / Map / Tuple / Nested, bare and under Nullable / Array. Oracle: Infer never panics; when it accepts, the column's type does not conflict with the request and a block of that type written by the reference model decodes to the written values. Conflicts is checked reflexive and symmetric on all ordered pairs of set (a) and against the documented equivalences, generated from families of spellings with one wire layout (enum / bare enum / underlying integer; DecimalN / Decimal(P, S) at both ends of each precision range; timestamps with and without zone; Map / Tuple types with 0 / 1 / 2 / 4 spaces after each comma), bare and under Array / Nullable / LowCardinality, with the pairs across families of one group required to conflict. distinct_nontrivial = distinct type strings + ordered pairs.")
+	c.Rule("type strings: (a) every type the registry's base columns report, legal and illegal parameterisations (time zones, DateTime64 precisions 0..10, Decimal precisions at every width boundary, FixedString sizes incl. 0 / negative / non-numeric, enum definitions with quoted commas and parentheses, interval kinds, types the library does not know), each under Array / Nullable / LowCardinality / Map / Tuple wrappers to depth 1, a smaller base set to depth 2 (thorough 3); (a2) all histories Infer(A), [refused Infer(X)], Infer(B) on one ColAuto over a 30-type set (unrelated types, parameter-only siblings, refused types): whatever is accepted for B must come with a column whose type does not conflict with B and whose parameters are those a fresh ColAuto derives from B; (b) ALL token strings of length <= n (quick 5, thorough 6) over a 25-token alphabet of type names, punctuation, parameters and junk; (c) nesting depth 10000; (d) every single edit (deletion, insertion or replacement by one of ()',= 0a- at every position, every truncation) of the set-(a) types with at most 3 parentheses; (e) ALL character strings of length <= m (quick 5, thorough 6) over the alphabet {' a = 1 , space - ( )} as the parameter list of Enum8 / Enum16 / DateTime / DateTime64 / Decimal / Decimal64 / FixedString / Map / Tuple / Nested, bare and under Nullable / Array. Oracle: Infer never panics; when it accepts, the column's type does not conflict with the request and a block of that type written by the reference model decodes to the written values. Conflicts is checked reflexive and symmetric on all ordered pairs of set (a) and against the documented equivalences, generated from families of spellings with one wire layout (enum / bare enum / underlying integer; DecimalN / Decimal(P, S) at both ends of each precision range; timestamps with and without zone; Map / Tuple types with 0 / 1 / 2 / 4 spaces after each comma), bare and under Array / Nullable / LowCardinality, with the pairs across families of one group required to conflict. distinct_nontrivial = distinct type strings + ordered pairs.")
 	quick := c.Quick()
 	types := c19Types(quick)
 	accepted := 0
@@ -211,7 +211,8 @@ func C19(c *vk.Ctx) {
 	{
 		hist := []string{"String", "UInt8", "Nullable(String)", "Array(UInt8)", "DateTime64(3)", "Enum8('a' = 1, 'b' = 2)", "LowCardinality(String)", "Decimal(9, 2)",
 			"FixedString(5)", "Map(String, UInt8)", "Tuple(String, UInt8)", "DateTime('Bad/Zone')", "DateTime64(3, 'No/Such_Zone')", "Decimal(77, 0)", "Array(Enum8('a' = 1))",
-			"LowCardinality(Nullable(String))", "Foo", "Nullable(Foo)", "FixedString(x)", "Enum8(=1)"}
+			"LowCardinality(Nullable(String))", "Foo", "Nullable(Foo)", "FixedString(x)", "Enum8(=1)",
+			"DateTime64(6)", "Nullable(DateTime64(9))", "Nullable(DateTime64(3))", "Enum8('x' = 5)", "Int8", "DateTime", "DateTime('UTC')", "Array(Enum8('b' = 7))", "Decimal(9, 4)", "FixedString(8)"}
 		fresh := map[string]bool{}
 		for _, b := range hist {
 			fresh[b] = new(proto.ColAuto).Infer(proto.ColumnType(b)) == nil
@@ -247,6 +248,13 @@ func C19(c *vk.Ctx) {
 						if inner, ok := col.Data.(proto.Column); ok {
 							if proto.ColumnType(b).Conflicts(inner.Type()) {
 								c.Violation("C19/column-kept-from-history", id, fmt.Sprintf("after Infer(%q), a refused Infer(%q) and an accepted Infer(%q) the ColAuto still holds a column of type %q", a, x, b, inner.Type()), nil)
+								return
+							}
+							// the column must be one that decodes data of type B: the parameters it works with
+							// (precision, enum definition, width), which its own Type() spells out, must be
+							// those a fresh ColAuto derives from B
+							if f := new(proto.ColAuto); f.Infer(proto.ColumnType(b)) == nil && f.Data != nil && f.Data.Type() != inner.Type() {
+								c.Violation("C19/column-parameters-from-history", id, fmt.Sprintf("after Infer(%q), a refused Infer(%q) and an accepted Infer(%q) the ColAuto holds a column of type %q; a fresh one holds %q", a, x, b, inner.Type(), f.Data.Type()), nil)
 							}
 						}
 					})
